@@ -9,6 +9,8 @@ META = {
                   'convert_id / create_slice_object / add_new_path_component', 'dataquery.NodePath.__str__ / slice_to_str'],
     'bounds': ['the whole expression is a CrossHair symbolic string (z3 sequence): every string of length <= 3, and of length <= 4 starting with one of @ / A space [ - '
                '(quick) / every string of length <= 5 (thorough), over the alphabet { @ [ ] : / . > - 0 1 A space }',
+               'print/parse round trip of path OBJECTS: subset slice or last component slice with start / stop / step each absent or a solver integer in -2..2 (int index 0..2), 1..2 (3) components, every separator',
+               'parser re-use: any first string of length <= 4 (5) over { @ [ ] : / A 1 space } followed by one of 3 valid expressions on the same parser object',
                'second harness: strings <= 3 over the alphabet widened by { x _ + 9 newline e-acute } (only the exception type is asserted); thorough also one unrestricted code point between two alphabet characters'],
     'assumptions': ['oracle: recursive-descent recogniser written from the EBNF in docs/internals.rst with Python slice semantics',
                     "don't-care (documentation silent, parser lenient/strict either way): ID tokens containing characters other than digits and capital "
@@ -38,6 +40,11 @@ def jobs(tier, seed):
                      timeout=7000 if thorough else 900,
                      witnesses=['dont-care'] if c in '.-' else (['accepted'] if c in '/>01A ' else ['rejected']),
                      core=not thorough))
+    for which in ('subset', 'component'):
+        J.append(Job('print-roundtrip:' + which, 'harness.c15', 'h_print_roundtrip', {'max_components': 2 if not thorough else 3, 'which': which},
+                     timeout=900, witnesses=['roundtrip']))
+    J.append(Job('parser-reuse', 'harness.c15', 'h_reuse', {'maxlen': 5 if thorough else 4}, timeout=3000 if thorough else 900,
+                 witnesses=['first-accepted', 'first-rejected']))
     J.append(Job('wide-alphabet', 'harness.c15', 'h_wide', {'maxlen': 3 if thorough else 2}, timeout=900, witnesses=['accepted', 'rejected']))
     if thorough:
         J.append(Job('anychar', 'harness.c15', 'h_anychar', {'prefix': 1, 'suffix': 1}, timeout=3000, witnesses=['rejected'], core=False))
